@@ -429,6 +429,12 @@ impl Cell {
             // both key orders occur
             special.push(((a, b), v));
         }
+        // a seventh of the tables has no positive distance anywhere: touch-only defaults (zeros of either sign) and
+        // overrides that are 0 or NEVER_COLLIDES only
+        if rng.usize(7) == 0 {
+            let special = special.into_iter().map(|(k, v)| (k, if v > 0.0 { NEVER_COLLIDES } else { v })).collect();
+            return SafetySpec { to_environment: zero(rng), to_robot_default: zero(rng), special, mode };
+        }
         SafetySpec { to_environment, to_robot_default, special, mode }
     }
 
